@@ -148,6 +148,8 @@ fn main() {
         // Range clone
         let rg = 3usize..9;
         check!("range_clone", rg.clone() == rg);
+        let (ra, rb) = ((g.i64() as usize) % 7, (g.i64() as usize) % 7);
+        check!("range_is_empty", (ra..rb).is_empty() == !(ra < rb));
         // wrapping_neg / wrapping_div / wrapping_rem against 128-bit arithmetic
         let (a, b) = (g.i64(), g.i64());
         check!("wrapping_neg", a.wrapping_neg() == (-(a as i128)) as i64);
